@@ -242,7 +242,7 @@ type c23Case struct {
 // lengths of the "short value that is a tail of keccak(message)" slots
 var c23ShortLens = []int{1, 2, 3, 8, 16, 20, 31}
 
-var c23Muts = []string{"", "", "", "", "short-suffix", "short-suffix", "short-suffix", "long-suffix", "hash-prefix", "empty-value", "zero-byte-then-hash", "other-account", "ccmc-label-other-proof", "other-slot", "absent-slot", "value-field", "drop-acct-node",
+var c23Muts = []string{"", "", "", "", "splice-storage", "splice-storage", "splice-storage", "short-suffix", "short-suffix", "short-suffix", "long-suffix", "hash-prefix", "empty-value", "zero-byte-then-hash", "other-account", "ccmc-label-other-proof", "other-slot", "absent-slot", "value-field", "drop-acct-node",
 	"drop-stor-node", "reorder", "extra-nodes", "addr-case", "addr-noprefix", "addr-other", "nonce", "balance", "codehash", "storagehash",
 	"equiv-encoding", "message", "message-trunc", "two-storage-proofs", "no-storage-proof", "json-trunc", "json-garbage", "swap-proofs", "empty-acct-proof"}
 
@@ -566,7 +566,7 @@ func runC23With(ctx *ev.Ctx, c c23Case, hook txHook) {
 
 		// --- mutation; the oracle terms are tracked explicitly
 		addrOK, fieldsOK, acctNodesOK, storNodesOK, jsonOK, oneStorageProof := true, true, true, true, true, true
-		unjudged := false
+		unjudged, spliced := false, false
 		var rawProof []byte
 		label := "mut:" + im.Mut
 		if im.Mut == "" {
@@ -595,6 +595,24 @@ func runC23With(ctx *ev.Ctx, c c23Case, hook txHook) {
 		case "absent-slot":
 			slot = slotKey("absent", im.Arg)
 			pj = honestProof(ws, ccmc, slot)
+		case "splice-storage":
+			// genuine account proof and genuine nonce / balance / code hash of the registered contract, but storageHash and a
+			// self-consistent storage proof taken from ANOTHER storage trie in which keccak(message) sits at the slot
+			if im.Arg%2 == 0 {
+				msg = makeMessage(100+mi, c.ArgLen, false) // a message that was never deposited
+				extra = msg.encode()
+			}
+			t2 := newSecure()
+			for i := 0; i < 1+im.Arg%5; i++ {
+				fk := slotKey("splice-filler", i)
+				t2.Update(fk[:], storageValueRLP(crypto.Keccak256([]byte{byte(i)})))
+			}
+			t2.Update(slot[:], storageValueRLP(crypto.Keccak256(extra)))
+			r2 := t2.Hash()
+			pj.StorageHash = hx(r2[:])
+			pj.StorageProofs = []spJSON{{Key: hx(slot[:]), Value: hx(crypto.Keccak256(extra)), Proof: hexList(proveNodes(t2, slot[:]))}}
+			fieldsOK = false // the claimed storage root is not the one of the account proven under the block's state root
+			spliced = true
 		case "short-suffix": // genuine proof of a slot holding only the last n bytes of keccak(message)
 			n := c23ShortLens[im.Arg%len(c23ShortLens)]
 			slot = slotKey(fmt.Sprintf("short%d", n), mi)
@@ -703,6 +721,9 @@ func runC23With(ctx *ev.Ctx, c c23Case, hook txHook) {
 			proven = a.storage[slot]
 		}
 		valueOK := proven != nil && bytes.Equal(proven, crypto.Keccak256(extra))
+		if spliced {
+			valueOK = true // the value proven under the CLAIMED storage root is the message hash; the claim itself is what fails
+		}
 		parses := extraParses(extra)
 		id := string(msg.CrossChainID)
 		if im.Mut == "message" || im.Mut == "message-trunc" {
@@ -834,7 +855,7 @@ func TestC23(t *testing.T) {
 		"cases: a source-chain world (secure state trie of 1..16 (thorough 50) accounts incl. the registered CCMC, CCMC storage trie of 1..16 (50) slots, deposit slot = keccak(message)) in three variants "+
 			"(before the deposit / with it / an alternative on a side branch), a tracked chain of 0..BlocksToWait+3 sealed headers (BlocksToWait 1..8 (20)) with an optional competing side branch, installed through "+
 			"the real header sync of one router, and 1..8 ImportOuterTransfer calls: heights at the confirmation boundary, one short, deeper, tip, above tip, at / below the trust root, at side-branch heights, before the deposit; "+
-			"proofs built with trie.Prove, honest or with one mutation (other account / slot, absent slot, genuine proofs of neighbour slots whose value is only related to keccak(message): its last 1..31 bytes, a 33-byte value ending in it, its first half, the empty string,  dropped, re-ordered, extra nodes, address spelling, altered nonce/balance/hashes, equivalent number spellings, altered message, "+
+			"proofs built with trie.Prove, honest or with one mutation (other account / slot, absent slot, a storage proof spliced in from another storage trie under a claimed storage root, genuine proofs of neighbour slots whose value is only related to keccak(message): its last 1..31 bytes, a 33-byte value ending in it, its first half, the empty string,  dropped, re-ordered, extra nodes, address spelling, altered nonce/balance/hashes, equivalent number spellings, altered message, "+
 			"0 or 2 storage proofs, malformed JSON). non-trivial: an accepted proof at exactly BlocksToWait confirmations, or a rejected mutation whose JSON is well formed; distinct by JSON of the case",
 		genC23, runC23)
 }
